@@ -4,7 +4,7 @@
     every memo consistent (Fresh, MemoConsistent, QueriesDoNotMutate); --explain shows TLC's shortest stale
     history of the as-built design.
 (G) the same model with Emit=TRUE prints every history up to a depth as a word; each word is replayed on real
-    Crystal objects of five structures.
+    Crystal objects of six structures.
 (T) every replay is a trace of events validated step by step by Trace_CrystalObject.
 """
 import copy
@@ -128,6 +128,20 @@ def structure_recipes(seed):
             break
     if recE:
         out.append(recE)
+    # F: space group P1 with whole molecules given partly outside the cell (coordinates < 0 and >= 1), as as_P1(), POSCAR
+    #    or Cartesian inputs produce them; no setting switch applies (switch tokens are dropped from its histories)
+    rowF = [r for r in rows if r["number"] == 1][0]
+    recF = None
+    while recF is None:
+        recF = xtal.gen_molecular(rng, rowF, nmols=2, sizes=(2, 3), n=48)
+    for k, mol in enumerate(recF["mols"]):
+        sh = [(-1, 0, 1)[(k + c) % 3] * recF["n"] for c in range(3)]
+        for i in mol:
+            a = recF["asym"][i - 1]
+            a["p"] = [a["p"][c] + sh[c] for c in range(3)]
+    recF["via"] = "memory"
+    recF["noswitch"] = True
+    out.append(recF)
     return out
 
 
@@ -366,6 +380,8 @@ def run(ctx, explain=False):
         sel = words if (not ctx.quick or k == 0) else [w for j, w in enumerate(words) if (j + k) % 4 == 0]
         if ctx.quick and k >= 3:
             sel = [w for j, w in enumerate(words) if (j + k) % 3 == 0]
+        if rec.get("noswitch"):
+            sel = sorted({tuple(x for x in w if ":s:" not in x) for w in sel} - {()})
         for w in sel:
             jobs.append({"rec": rec, "word": list(w)})
     # longer random histories
@@ -384,12 +400,14 @@ def run(ctx, explain=False):
                 if nobj == 2 and rng.random() < 0.5:
                     tok = "2" + tok[1:]
                 word.append(tok)
+        if rec.get("noswitch"):
+            word = [x for x in word if ":s:" not in x]
         jobs.append({"rec": rec, "word": word, "src": "random"})
     traces = pool_map(drive, jobs, chunksize=8)
     ctx.notes["replayed_histories"] = len(traces)
     ctx.validate("trace/Trace_CrystalObject.tla", traces, batch=4000, timeout=2400)
-    ctx.rule = ("histories over %d read-only queries (fixed arguments), choose_trigonal_lattice('H'/'R') and deepcopy on five structures "
-                "(148 H molecular built in memory, 167 H loaded from CIF, 146 R loaded from SHELX, 148 H with a partially occupied site just off the 3-fold axis, 148 H with a diatomic across an inversion centre listed before a general molecule): every history of length <= 2 over the full "
+    ctx.rule = ("histories over %d read-only queries (fixed arguments), choose_trigonal_lattice('H'/'R') and deepcopy on six structures "
+                "(148 H molecular built in memory, 167 H loaded from CIF, 146 R loaded from SHELX, 148 H with a partially occupied site just off the 3-fold axis, 148 H with a diatomic across an inversion centre listed before a general molecule, P1 with whole molecules partly outside the cell): every history of length <= 2 over the full "
                 "alphabet and <= 3 over the %d-query core enumerated by TLC from MC_CrystalObject (thorough: <= 3 full, <= 4 core), plus seeded "
                 "random histories of length 5-12; non-trivial = the history contains a setting switch" % (len(QUERIES), len(CORE)))
     ctx.exhaustive = True
